@@ -221,6 +221,12 @@ def run(ctx):
     vlib.mc(ctx, "MCTrees.tla", "MCTreesRewrite.cfg", workers=4, timeout=900)
     vlib.mc(ctx, "MCTrees.tla", "MCTreesRepair.cfg", workers=4, timeout=900)
     vlib.mc(ctx, "MCTrees.tla", "MCTreesMergeQ.cfg" if q else "MCTreesMerge.cfg", workers=8, timeout=3000)
+    # copy.rs as a four-step algorithm over every source forest / destination index of three ids (ids may name a tree and a data blob)
+    vlib.mc(ctx, "Copy.tla", "MCCopy.cfg" if q else "MCCopyFull.cfg", workers=8, timeout=1200)
+    for cfg, what in (("MCCopySkipRoots.cfg", "does not walk snapshots whose root tree the destination lists"),
+                      ("MCCopyUntyped.cfg", "shares an untyped 'already written' set between the data and the tree copier")):
+        r = vlib.tlc("Copy.tla", cfg, workers=8, timeout=1200, metadir=os.path.join(ctx.out, "mc-" + cfg))
+        ctx.negative_control(r.violated == "Complete", "model: a copy that %s must violate Complete" % what)
     rng = random.Random(ctx.seed * 32452843 + 12)
     progs = {}
 
